@@ -60,7 +60,25 @@ OpEv == /\ E.ev = "op"
            /\ E.fresh_eq /\ E.ser_eq /\ E.hash_eq /\ E.bytes_eq                   \* representation independence
            /\ \A i, j \in DOMAIN E.regs : E.eqm[i][j] = (NormN(E.regs[i]) = NormN(E.regs[j]))
 
-Next == l <= Len(Rec) /\ (Consts \/ InitEv \/ OpEv) /\ l' = l + 1
+\* integer <-> element conversions.  To the field: an infallible conversion (From<uN>, the reducing constructor) gives the residue of
+\* the integer; a fallible one (TryFrom) succeeds for every integer below the modulus, and whenever it succeeds the element is the
+\* residue of the integer (never that of a truncated integer).  From the field: a conversion that succeeds gives the canonical
+\* integer of the element, and it succeeds whenever that integer fits the target type.
+ConvEv == /\ E.ev = "conv"
+          /\ LET v == NormN(E.v) IN
+             \A k \in DOMAIN E.to :
+                LET c == E.to[k]  r == NormN(c.r) IN
+                /\ (c.ok => IsCanonical(r) /\ r = RedF(v))
+                /\ (~c.fallible => c.ok)
+                /\ (LessN(v, Modulus) => c.ok)
+          /\ LET e == NormN(E.elem) IN
+             /\ e = RedF(NormN(E.src))
+             /\ \A k \in DOMAIN E.from :
+                   LET c == E.from[k] IN
+                   /\ (c.ok => NormN(c.r) = e)
+                   /\ (LessN(e, Pow2N(c.bits)) => c.ok)
+
+Next == l <= Len(Rec) /\ (Consts \/ InitEv \/ OpEv \/ ConvEv) /\ l' = l + 1
 
 Accepted ==
     LET d == TLCGet("stats").diameter
